@@ -18,6 +18,8 @@ CELLS = [
     ("std-maf-logit-t", "std", "G2u", {"flow_config": {"ftype": "maf"}, "reparameterisations": {"x0": "logit", "x1": "logit"}, "shrinkage_expectation": "t"}),
     ("ins-default", "ins", "G2u", {"nlive": 500, "min_samples": 100}),
     ("ins-strict-nonuniform", "ins", "G2n", {"nlive": 500, "min_samples": 100, "strict_threshold": True}),
+    ("std-narrow-prior-box-draws", "std", "G2rn", {}),
+    ("ins-no-iid", "ins", "G2u", {"nlive": 500, "min_samples": 100, "draw_iid_live": False}),
     ("std-G4u", "std", "G4u", {}),
     ("std-uninformed-50-nsf", "std", "G2u", {"maximum_uninformed": 50, "flow_config": {"ftype": "nsf"}}),
     ("std-inversion", "std", "G2u", {"reparameterisations": {"x0": "inversion", "x1": "default"}}),
@@ -34,7 +36,7 @@ CELLS = [
     ("std-flat-direction-prime-prior", "std", "G2f", {"reparameterisations": {"x0": {"reparameterisation": "rescaletobounds", "rescale_bounds": [0.0, 1.0], "prior": "uniform"},
                                                                               "x1": {"reparameterisation": "rescaletobounds", "rescale_bounds": [0.0, 1.0], "prior": "uniform"}}}),
 ]
-QUICK = ["std-default", "std-no-uninformed", "std-analytic-nonuniform", "std-augmented", "std-maf-logit-t", "ins-default", "ins-strict-nonuniform"]
+QUICK = ["std-default", "std-no-uninformed", "std-analytic-nonuniform", "std-augmented", "std-maf-logit-t", "std-narrow-prior-box-draws", "ins-default", "ins-strict-nonuniform", "ins-no-iid"]
 
 
 def calib_worker(case):
